@@ -91,6 +91,11 @@ def _pipeline(col, shard, ctx):
                 for bsa in (1, 2, 4):
                     for bsb in (1, 3, 4):
                         cases.append({'what': 'pipeline', 'runs': [[a, bsa], [b, bsb]], 'kind': 'attack' if (a + b) % 2 else 'reverse', 'frame': (a + bsb) % len(FRAMES), 'chain': (b + bsa) % len(CHAINS)})
+        # the same Container object reused after an iteration over its batches was abandoned (a run() that raised on a non-last batch, a
+        # user peeking at the first batch): the next run() must still see every trace
+        for n, bs in ((5, 2), (7, 3), (4, 1), (6, 6)):
+            for how in ('raise', 'peek', 'half-loop'):
+                cases.append({'what': 'pipeline', 'runs': [[n, bs]], 'kind': 'reverse' if n % 2 else 'attack', 'frame': 0, 'chain': 0, 'interrupt': how})
         for a, b, c in ((1, 1, 1), (2, 3, 1), (3, 1, 4), (4, 4, 4), (1, 5, 2)):
             for bss in ((1, 2, 3), (3, 3, 3), (2, 10, 1)):
                 cases.append({'what': 'pipeline', 'runs': [[a, bss[0]], [b, bss[1]], [c, bss[2]]], 'kind': 'attack', 'frame': 3, 'chain': 2})
@@ -118,7 +123,7 @@ def _pipeline_case(col, seed, c):
     sf = asys.selection(kind)
     a = RecAttack(selection_function=sf, model=s.Value(), discriminant=s.nansum, precision='float64') if kind == 'attack' else RecReverse(selection_function=sf, model=s.Value(), precision='float64')
     sets = []; first = 0
-    label = 'runs=%s kind=%s frame=%s chain=%s' % (c['runs'], kind, FRAMES[c['frame']][0], chain)
+    label = 'runs=%s kind=%s frame=%s chain=%s%s' % (c['runs'], kind, FRAMES[c['frame']][0], chain, '' if not c.get('interrupt') else ' after an abandoned iteration (%s) over the same container' % c['interrupt'])
     for ri, (n, bs) in enumerate(c['runs']):
         d = asys.make_set(n, 6, 2, seed, salt=ri, first=first, wide=(kind == 'reverse')); first += n; sets.append(d)      # reverse analyses are fed 16-bit values that outgrow 8 bits after a few rows
         cont_kw = {'preprocesses': [pp[name] for name in chain]}
@@ -127,7 +132,22 @@ def _pipeline_case(col, seed, c):
         bsv = [tuple(t) for t in bs] if isinstance(bs, list) else bs
         try:
             with asys.BatchSize(bsv):
-                a.run(s.Container(asys.ths_of(d), **cont_kw))
+                cont = s.Container(asys.ths_of(d), **cont_kw)
+                how = c.get('interrupt')
+                if how == 'raise':
+                    bad = (RecAttack(selection_function=asys.selection('attack', fresh=True), model=s.Value(), discriminant=s.nansum, precision='float64') if kind == 'attack'
+                           else RecReverse(selection_function=asys.selection('reverse', fresh=True), model=s.Value(), precision='float64'))
+                    bad._update = None                                   # a distinguisher whose update fails on the very first batch
+                    try:
+                        bad.run(cont)
+                    except Exception:
+                        pass
+                elif how == 'peek':
+                    next(iter(cont.batches()))
+                elif how == 'half-loop':
+                    for bi, _b in enumerate(cont.batches()):
+                        if bi == 0: break
+                a.run(cont)
         except Exception as e:
             col.violation('C02/pipeline/run-raised', '%s: run() raised %s: %s' % (label, type(e).__name__, str(e)[:200]), c); return
         col.transitions += 1
